@@ -91,9 +91,14 @@ class Check:
                 self.samples.append({"label": s.get("label"), "cfg": s.get("cfg"), "input": "".join(chr(x) for x in c["in"])[:300],
                                      "output": "".join(chr(x) for x in c.get("out", []))[:300]})
         # TLC re-decides flagged sessions (all up to a cap) and a sample of the others
-        mine = [s for s in flagged_sessions]
+        # (TLC's cost per session grows faster than linearly with the length of the texts: of the sessions nothing was
+        # flagged in, only those of moderate size are sampled; flagged ones are all kept, the smallest first)
+        weight = lambda s: sum(len(c.get("in", [])) + len(c.get("out", [])) for c in s["session"]["calls"])
+        mine = sorted(flagged_sessions, key=weight)
         random.Random(SEED).shuffle(sampled_sessions)
-        chosen = mine[:confirm_cap] + sampled_sessions[:sample_cap]
+        moderate = [s for s in sampled_sessions if weight(s) <= 40000]
+        self.extra["sessions_too_long_to_sample"] = self.extra.get("sessions_too_long_to_sample", 0) + len(sampled_sessions) - len(moderate)
+        chosen = mine[:confirm_cap] + (moderate or sorted(sampled_sessions, key=weight))[:sample_cap]
         if chosen:
             self.validate_sessions(chosen, name, props)
         return rows
